@@ -426,6 +426,18 @@ func RunC04(c *Ctx) {
 		idx++
 	}
 	r.Count("scenario_cases", idx)
+	// sequential single-handle histories (an Add or compaction by the only handle never
+	// fails) and records at the capacity of a block
+	for i := 0; i < c.N(300, 6000); i++ {
+		if c.Mine(i) {
+			runHistory(c, "runHistory", 2000000+i, nil)
+		}
+	}
+	for i := 0; i < 24; i++ {
+		if c.Mine(i) {
+			runCapacityWindow(c, i)
+		}
+	}
 	// engine B: real processes, injected delays, observer, kill -9 (cross-validation)
 	runEngB(c, c.N(16, 300))
 	sampleEng(c, e)
